@@ -65,7 +65,8 @@ Inductive op :=
 | OThrow (a : Z)                 (* throw runtime_error("hgv boom a") *)
 | OPoke (a b : Z)                (* child(a).schedule_node(b, child(a).evaluation_time()) from outside *)
 | ONop
-| OThrowForeign.                (* throw an object that is not a std::exception: reported as "unknown error" *)
+| OThrowForeign
+| OPoke2 (a b : Z).              (* as OPoke, on the GRANDCHILD graph owned by node 0 of child(a) *)                (* throw an object that is not a std::exception: reported as "unknown error" *)
 
 Record inview := mkIv { v_valid : bool; v_mod : bool; v_val : Z; v_lmt : Z }.
 
@@ -271,6 +272,12 @@ Definition do_op (T : tcfg) (g i : nat) (started : bool) (opi : Z) (o : op) (w :
       else w
   | ONop => w
   | OThrowForeign => set_err 2 w
+  | OPoke2 a b =>
+      let c' := ncfg_at T g (Z.to_nat a) in
+      let c'' := ncfg_at T (c_child c') 0 in
+      if is_nested c' && g_started (gat (c_child c') w) && is_nested c'' && g_started (gat (c_child c'') w)
+      then sched_at (length T) T (c_child c'') (Z.to_nat b) (now_of (c_child c'') w) w
+      else w
   end.
 
 Fixpoint do_ops (T : tcfg) (g i : nat) (started : bool) (opi : Z) (os : list op) (w : world) : world :=
@@ -632,7 +639,8 @@ Definition decode_op (code a b : Z) : op :=
   if code =? 7 then ORaw a else
   if code =? 8 then OThrow a else
   if code =? 9 then OPoke a b else
-  if code =? 11 then OThrowForeign else ONop.
+  if code =? 11 then OThrowForeign else
+  if code =? 12 then OPoke2 a b else ONop.
 
 (* script lines: 3 g node k code a b *)
 Definition script_ops (w : wire) (g i : nat) (k : Z) : list op :=
